@@ -99,7 +99,11 @@ def check(run, M, tier):
                 extra = [x for x in conds if x not in inst.conds]
                 ctx = "%s[%s]" % (c.name, cond_text(inst.conds + extra)[:70])
                 if not isinstance(r, LV):
-                    raise Unrecognised("%s._normal_linop returns a non-operator %s" % (c.qual, _show(r)), nf.node)
+                    # e.g. `return self.A.N`: the normal operator of a *different* operator (a wrapped child), which is A^H A only if the
+                    # wrapper adds nothing -- not one of the admissible forms of this rule
+                    run.bad("N2", ctx, nf.loc(), "%s._normal_linop returns %s, which is neither self.H * self nor an admissible shortcut of this operator (the normal "
+                            "operator of a wrapped operator is that of the wrapper only if the wrapper acts as the identity)" % (c.name, _show(r)[:140]), stmt="N2:" + c.name)
+                    continue
                 kind = _classify_normal(alg, inst, r)
                 if kind == "identity":
                     if sig in UNITARY:
